@@ -92,6 +92,8 @@ struct Xform {
     note: String,
     /// the abstracted expression resolves to at least one value (best effort)
     resolves: bool,
+    /// the program to compare with, when it is not the generated one itself
+    inline: Option<File>,
 }
 
 fn levels_for(u: &mut Choices, s: &Site, literal: bool) -> Level {
@@ -168,6 +170,7 @@ fn transform(u: &mut Choices, f: &File, doc: &V) -> Option<Xform> {
                 file: g,
                 note: format!("literal {} in the condition of a when block -> let at {} level{}", lit_text(&l), if at_file { "file" } else { "rule" }, if kind == 14 { " + a let of the same name inside the block" } else { "" }),
                 resolves: true,
+                inline: None,
             });
         }
         0 | 1 => {
@@ -185,7 +188,7 @@ fn transform(u: &mut Choices, f: &File, doc: &V) -> Option<Xform> {
                     g.lets.push(Let { name: "zv".into(), value: Expr::Lit(Lit::V(V::s("outer-shadowed"))) });
                     note.push_str(" + shadowed outer definition");
                 }
-                return Some(Xform { kind: if kind == 1 { "shadow" } else { "rhs-literal" }, file: g, note, resolves: true });
+                return Some(Xform { kind: if kind == 1 { "shadow" } else { "rhs-literal" }, file: g, note, resolves: true, inline: None });
             }
             None
         }
@@ -211,7 +214,7 @@ fn transform(u: &mut Choices, f: &File, doc: &V) -> Option<Xform> {
                 let resolves = crate::model::eval_query_root(doc, &prefix).map(|m| m.iter().any(|x| matches!(x, crate::model::M::R(_)))).unwrap_or(false);
                 clause_at(&mut g, &s).q = var_q(&fresh, rest);
                 add_let(&mut g, &s, lvl, Let { name: fresh, value: Expr::Query { some: false, q: prefix.clone() } });
-                return Some(Xform { kind: "lhs-prefix", file: g, note: format!("query prefix {} -> let at {:?}", query_text(&prefix), lvl), resolves: resolves || s.in_block });
+                return Some(Xform { kind: "lhs-prefix", file: g, note: format!("query prefix {} -> let at {:?}", query_text(&prefix), lvl), resolves: resolves || s.in_block, inline: None });
             }
             None
         }
@@ -246,7 +249,7 @@ fn transform(u: &mut Choices, f: &File, doc: &V) -> Option<Xform> {
                 Level::File => g.lets.push(l),
                 _ => g.rules[ri].lets.push(l),
             }
-            Some(Xform { kind: "block-query", file: g, note: format!("block query prefix {} -> let at {:?}", query_text(&p), lvl), resolves: true })
+            Some(Xform { kind: "block-query", file: g, note: format!("block query prefix {} -> let at {:?}", query_text(&p), lvl), resolves: true, inline: None })
         }
         9 | 10 => {
             // a key inside the left-hand query -> string variable, interpolated (`a.%k.rest`)
@@ -270,9 +273,40 @@ fn transform(u: &mut Choices, f: &File, doc: &V) -> Option<Xform> {
                 _ => unreachable!(),
             };
             let lvl = levels_for(u, &s, true);
+            // half of the time (where the clause stands alone on its line, is not `some` / `not` /
+            // an emptiness test): a *list* of two key names - the clause over `%zv` then ranges over
+            // both entries, i.e. it is the conjunction of the clause written once per key; the second
+            // key may be missing from the document
+            let alone = match s.inner {
+                None => g.rules[s.rule].body[s.line].len() == 1,
+                Some((bl, _)) => match &g.rules[s.rule].body[s.line][s.alt] {
+                    Item::Block { body, .. } | Item::When { body, .. } => body[bl].len() == 1,
+                    _ => false,
+                },
+            };
+            let plain = !c0.some && !c0.prefneg && !matches!(c0.kind, Kind::Unary { op: UnOp::Empty, .. });
+            if alone && plain && u.chance(1, 2) {
+                let key2 = *u.pick(&["a", "b", "k", "items", "nosuchkey", "zz"]);
+                if key2 != key {
+                    let mut second = c0.clone();
+                    second.q.parts[i] = Part::Key(key2.to_string());
+                    let mut inline = g.clone();
+                    match s.inner {
+                        None => inline.rules[s.rule].body.insert(s.line + 1, vec![Item::Clause(second)]),
+                        Some((bl, _)) => {
+                            if let Item::Block { body, .. } | Item::When { body, .. } = &mut inline.rules[s.rule].body[s.line][s.alt] {
+                                body.insert(bl + 1, vec![Item::Clause(second)]);
+                            }
+                        }
+                    }
+                    clause_at(&mut g, &s).q.parts[i] = Part::VarKey(fresh.clone());
+                    add_let(&mut g, &s, lvl, Let { name: fresh, value: Expr::Lit(Lit::V(V::List(vec![V::s(&key), V::s(key2)]))) });
+                    return Some(Xform { kind: "key-list-interpolation", file: g, note: format!("keys .{} and .{} -> let [..] at {:?}, interpolated", key, key2, lvl), resolves: true, inline: Some(inline) });
+                }
+            }
             clause_at(&mut g, &s).q.parts[i] = Part::VarKey(fresh.clone());
             add_let(&mut g, &s, lvl, Let { name: fresh, value: Expr::Lit(Lit::V(V::Str(key.clone()))) });
-            Some(Xform { kind: "key-interpolation", file: g, note: format!("key .{} -> let at {:?}, interpolated", key, lvl), resolves: true })
+            Some(Xform { kind: "key-interpolation", file: g, note: format!("key .{} -> let at {:?}, interpolated", key, lvl), resolves: true, inline: None })
         }
         6 => {
             // an unused variable (query, literal, or a function call that would raise an error)
@@ -285,7 +319,7 @@ fn transform(u: &mut Choices, f: &File, doc: &V) -> Option<Xform> {
             let mut t = String::new();
             print_expr(&value, "", &mut t);
             add_let(&mut g, &s, lvl, Let { name: "unusedv".into(), value });
-            Some(Xform { kind: "unused-let", file: g, note: format!("unused let {} at {:?}", t, lvl), resolves: true })
+            Some(Xform { kind: "unused-let", file: g, note: format!("unused let {} at {:?}", t, lvl), resolves: true, inline: None })
         }
         _ => {
             // parameterise a clause of a rule body
@@ -312,7 +346,7 @@ fn transform(u: &mut Choices, f: &File, doc: &V) -> Option<Xform> {
                     g.prules.push(PRule { name: "zg".into(), params: vec!["zpa".into(), "zpb".into()], lets: vec![], body: vec![vec![Item::Clause(bc)]] });
                     let args = vec![Expr::Query { some: false, q: var_q("zpb", vec![]) }, Expr::Query { some: false, q: var_q("zpa", vec![]) }];
                     g.rules[s.rule].body[s.line][s.alt] = Item::PCall { neg: false, name: "zg".into(), args, msg: None };
-                    return Some(Xform { kind: "param-crossed-names", file: g, note: format!("clause -> zg(%zpb, %zpa) with zpa = {} and zpb = {} at {:?}", lit_text(l), query_text(&c0.q), lvl), resolves: true });
+                    return Some(Xform { kind: "param-crossed-names", file: g, note: format!("clause -> zg(%zpb, %zpa) with zpa = {} and zpb = {} at {:?}", lit_text(l), query_text(&c0.q), lvl), resolves: true, inline: None });
                 }
                 let pname = "zp".to_string();
                 let (body_clause, arg, note) = if kind == 7 {
@@ -332,7 +366,7 @@ fn transform(u: &mut Choices, f: &File, doc: &V) -> Option<Xform> {
                 let _ = (op, opneg);
                 g.prules.push(PRule { name: "zf".into(), params: vec![pname], lets: vec![], body: vec![vec![Item::Clause(body_clause)]] });
                 g.rules[s.rule].body[s.line][s.alt] = Item::PCall { neg: false, name: "zf".into(), args: vec![arg], msg: None };
-                return Some(Xform { kind: if kind == 7 { "param-query" } else { "param-literal" }, file: g, note, resolves: true });
+                return Some(Xform { kind: if kind == 7 { "param-query" } else { "param-literal" }, file: g, note, resolves: true, inline: None });
             }
             None
         }
@@ -403,7 +437,7 @@ fn random_case(u: &mut Choices, sz: Size) -> CaseResult {
         }
     }
     let doc_text = doc.to_json();
-    let p = print_file(&file);
+    let p = print_file(x.inline.as_ref().unwrap_or(&file));
     let p2 = print_file(&f2);
     match compare(&doc_text, &p, &p2) {
         Ok(m) => {
